@@ -12,9 +12,34 @@ VERIF = os.path.dirname(os.path.dirname(os.path.abspath(__file__)))
 CACHE = os.path.join(VERIF, '.cache')
 
 
+def _prune(target):
+    """remove what one scratch run added to a shared target directory: the artifacts of the two path crates (their hash
+    depends on the path of the scratch copy, so they are never reused) and all incremental state; registry dependencies stay"""
+    import glob
+    for pat in ('debug/deps/*response_time_analysis-*', 'debug/deps/*rta_witness-*', 'debug/deps/rust_out*',
+                'debug/.fingerprint/response-time-analysis-*', 'debug/.fingerprint/rta-witness-*'):
+        for f in glob.glob(os.path.join(target, pat)):
+            if os.path.isdir(f):
+                shutil.rmtree(f, ignore_errors=True)
+            else:
+                try:
+                    os.remove(f)
+                except OSError:
+                    pass
+    shutil.rmtree(os.path.join(target, 'debug', 'incremental'), ignore_errors=True)
+
+
 def run_witnesses(repo):
     """-> (ok: bool, results: {test name: 'ok'|'FAILED'}, raw tail)"""
-    wdir = os.path.join(CACHE, f'witness-{os.getpid()}')
+    main = os.path.realpath(repo) == '/repo'
+    # a fixed location per kind of tree: the crate's own path is part of its artifact hash, so a per-process directory
+    # would leave new artifacts behind on every run
+    kind = 'main' if main else 'scratch'
+    wdir = os.path.join(CACHE, f'witness-{kind}')
+    target = os.path.join(CACHE, 'target-witness' if main else 'target-witness-scratch')
+    os.makedirs(CACHE, exist_ok=True)
+    lk = open(os.path.join(CACHE, f'lock-witness-{kind}'), 'w')
+    fcntl.flock(lk, fcntl.LOCK_EX)
     shutil.rmtree(wdir, ignore_errors=True)
     os.makedirs(os.path.join(wdir, 'src'))
     try:
@@ -26,11 +51,9 @@ def run_witnesses(repo):
         lock = os.path.join(repo, 'Cargo.lock')
         if os.path.exists(lock):
             shutil.copy(lock, os.path.join(wdir, 'Cargo.lock'))
-        env = dict(os.environ, CARGO_NET_OFFLINE='true', CARGO_TARGET_DIR=os.path.join(CACHE, 'target-witness'))
+        env = dict(os.environ, CARGO_NET_OFFLINE='true', CARGO_TARGET_DIR=target, CARGO_INCREMENTAL='0')
         env.pop('RUSTC_WORKSPACE_WRAPPER', None)
-        with open(os.path.join(CACHE, 'lock-witness'), 'w') as lk:
-            fcntl.flock(lk, fcntl.LOCK_EX)
-            r = subprocess.run(['cargo', '+nightly', 'test', '--doc', '--offline'], cwd=wdir, capture_output=True, text=True, env=env)
+        r = subprocess.run(['cargo', '+nightly', 'test', '--doc', '--offline'], cwd=wdir, capture_output=True, text=True, env=env)
         out = r.stdout + r.stderr
         results = {}
         for m in re.finditer(r'^test (src/lib\.rs - (\S+) \(line (\d+)\)(?: - [a-z_ ]+)*) \.\.\. (\w+)', out, re.M):
@@ -38,3 +61,6 @@ def run_witnesses(repo):
         return r.returncode == 0, results, out[-3000:]
     finally:
         shutil.rmtree(wdir, ignore_errors=True)
+        if not main:
+            _prune(target)
+        lk.close()
